@@ -105,8 +105,8 @@ def frozen_dataclass(
                 this instance replaced by the new values.
             """
 
-            current_values = {field.name: deepcopy(getattr(self, field.name)) for field in fields(self)}
-            return new_class(**{**current_values, **kwargs})
+            current_values = {field.name: deepcopy(getattr(self, field.name)) for field in fields(self) if field.init}
+            return type(self)(**{**current_values, **kwargs})
 
         def validate_types(self, *, _context: Dict[str, Type] = None) -> None:
             """
